@@ -450,7 +450,7 @@ pub fn run_inner(which: Which, tier: Tier) -> i32 {
                 .take(6)
                 .map(|f| Violation {
                     class: f.class.clone(),
-                    key: format!("{}|{}", f.key, if v.desc.starts_with("pathological:") { v.desc.clone() } else if v.desc.starts_with("gen:") { "generated scoping program".to_string() } else { format!("edit of {}", v.desc.split(':').next().unwrap_or("")) }),
+                    key: format!("{}|{}", f.key, if v.desc.starts_with("pathological:") { v.desc.clone() } else if v.desc.starts_with("gen:") { "generated scoping program".to_string() } else if v.desc.starts_with("grammar:") { "grammar program".to_string() } else { format!("edit of {}", v.desc.split(':').next().unwrap_or("")) }),
                     witness: json!({"case": cj, "query": f.query, "file": f.file, "off": f.off}),
                     detail: format!("[{}] {}", v.desc, f.detail),
                 })
@@ -474,12 +474,13 @@ pub fn run_inner(which: Which, tier: Tier) -> i32 {
         }
     }
     l.bound = format!(
-        "{} base workspaces ({} files) x every single token edit (delete / truncate / insert+replace over {} symbols / duplicate+remove item / empty{}) + {} pathological workspaces + {gen_count} generated scoping programs (C05's generator); offsets: token boundaries near the edit + stride elsewhere; queries: {}",
+        "{} base workspaces ({} files) x every single token edit (delete / truncate / insert+replace over {} symbols / duplicate+remove item / empty{}) + {} pathological workspaces + {gen_count} generated scoping programs (C05's generator) + {} programs of the reference grammar (C04's generator: every production between two neighbours); offsets: token boundaries near the edit + stride elsewhere; queries: {}",
         bases.len(),
         bases.iter().map(|b| b.1.packages.iter().map(|p| p.files.len()).sum::<usize>()).sum::<usize>(),
         if tier == Tier::Thorough { crate::core::alphabet::sigma().len() } else { QUICK_SYMS.len() },
         if tier == Tier::Thorough { " / char insert+delete" } else { "" },
         pathological().len(),
+        grammar_programs(tier).len(),
         if which == Which::C06 { "goto+references+highlight at every identifier occurrence".to_string() } else { format!("all {} query kinds", ALL_Q.len()) }
     );
     l.extra.insert("ranges_checked".into(), json!(ranges));
@@ -507,6 +508,16 @@ fn known_aborting() -> Vec<String> {
         .collect()
 }
 
+/// Well-formed programs from the reference grammar: a small cross-section (every production once)
+/// in the quick tier, all derivations of depth 1 in the thorough tier.
+fn grammar_programs(tier: Tier) -> Vec<String> {
+    use crate::gleam::ast::{Expr, Item, Module, Stmt};
+    use crate::gleam::print::{print_module, Layout};
+    let items = if tier == Tier::Thorough { crate::gleam::enumerate::items(1) } else { crate::gleam::enumerate::items_small() };
+    let nb = |name: &str| Item::Fn { public: true, external: false, target: None, name: name.into(), params: vec![], ret: None, body: Some(vec![Stmt::Expr(Expr::Int("0".into()))]) };
+    items.into_iter().map(|i| print_module(&Module { items: vec![nb("before"), i, nb("after")] }, Layout::Space).text).collect()
+}
+
 fn all_variants(which: Which, tier: Tier) -> Vec<Variant> {
     let bases = base_workspaces();
     let mut all: Vec<Variant> = vec![];
@@ -521,6 +532,11 @@ fn all_variants(which: Which, tier: Tier) -> Vec<Variant> {
                 all.extend(variants_of(name, ws, pi, fi, tier, chars));
             }
         }
+    }
+    // every production of the reference grammar (C04's generator) as a one-module workspace: each
+    // syntactic construct goes through lowering, inference and every query
+    for (i, text) in grammar_programs(tier).into_iter().enumerate() {
+        all.push(Variant { desc: format!("grammar:{i}"), ws: Workspace::single(&[("g", &text)]), pkg: 0, file: 0, focus: 0 });
     }
     // shadowing-heavy generated programs (C05's generator) as further workspaces
     if which == Which::C06 || tier == Tier::Thorough {
